@@ -128,23 +128,8 @@ pub fn run(tier: &str) -> i32 {
     rep.sample(json!({"text": "A9s+:0.5", "means": "AKs,AQs,AJs,ATs,A9s at weight 0.5 (20 combos)"}));
     rep.sample(json!({"text": "88-66", "means": "88,77,66 (18 combos)"}));
 
-    // reversed spellings: recorded, no verdict
-    let mut reversed = vec![];
-    for h in 0..12u8 {
-        for k in (h + 1)..13u8 {
-            for s in ['s', 'o'] {
-                let text = format!("{}{}{}", RANK_CHARS[k as usize], RANK_CHARS[h as usize], s);
-                let r = parse_range(&text);
-                reversed.push(match r {
-                    Ok(Some(c)) => c.len() as i64,
-                    Ok(None) => -1,
-                    Err(_) => -2,
-                });
-            }
-        }
-    }
-    // ... and with a verdict: the quantifier's 3,796 well-formed tokens are the 3,640 above plus these 156
-    // kicker-first spellings; 'KAs' denotes the same four combos as 'AKs'
+    // the quantifier's 3,796 well-formed tokens are the 3,640 above plus the 156 kicker-first spellings of the
+    // single rank pairs; 'KAs' denotes the same four combos as 'AKs'
     {
         let mut nrev = 0u64;
         for h in 0..12u8 {
@@ -170,8 +155,6 @@ pub fn run(tier: &str) -> i32 {
         }
         rep.sub("kicker-first-spellings", "the 156 single rank-pair tokens written kicker first ('KAs', '27o') x 3 weights, as token and as range: the same combos as the high-card-first spelling (3,640 + 156 = the 3,796 well-formed tokens of the quantifier)", nrev * 2, 156, true, json!({}));
     }
-    let rev_ok = reversed.iter().filter(|x| **x > 0).count();
-    rep.set("reversed_spellings_recorded_without_verdict", json!({"texts": reversed.len(), "parsed_to_a_non_empty_range": rev_ok, "note": "kicker-first spellings such as 'KAs' are not required by the statement; their behaviour is only recorded"}));
 
     // (b) ordered pairs of rank-pair tokens, two weights: later wins on the overlap
     let sub_ranks: Vec<char> = vec!['A', 'K', 'Q', 'J', '2'];
@@ -245,7 +228,9 @@ pub fn run(tier: &str) -> i32 {
             }
         }
         for t in covering {
-            for l in [[(t, ":0.5"), (cp, ":0.25")], [(cp, ":0.25"), (t, ":0.5")]] {
+            // different weights, and the SAME weight on both (a shortcut that takes "this combo already has my
+            // weight" for "my rank pair is already there" shows only then)
+            for l in [[(t, ":0.5"), (cp, ":0.25")], [(cp, ":0.25"), (t, ":0.5")], [(cp, ":0.5"), (t, ":0.5")], [(cp, ""), (t, "")]] {
                 n += 1;
                 let text = list_text(&l);
                 let exp = expected_list(&l);
@@ -263,7 +248,49 @@ pub fn run(tier: &str) -> i32 {
             rep.violation(Violation { key: format!("range={}", text), sub: "card-pair-vs-rank-pair".into(), case: json!({"text": text}), expected: json!("later token's weight on the shared combo"), observed: b });
         }
     }
-    rep.sub("card-pair-vs-rank-pair", "each ordered card-pair token (every 7th in quick) before and after the single rank pair, the shortest '+' token and the shortest span that cover it", n_c, n_c, thorough, json!({}));
+    rep.sub("card-pair-vs-rank-pair", "each ordered card-pair token (every 7th in quick) before and after the single rank pair, the shortest '+' token and the shortest span that cover it, with different weights and with the same weight", n_c, n_c, thorough, json!({}));
+
+    // (c2) a rank pair that is already PARTLY there when its token arrives: for every rank pair and every one of its
+    // combos c (and the next combo d): "c:w,RP:w", "c:w,d:0.25,RP:w" and "RP:w" after the whole rank pair minus c -
+    // the later token still brings all of its combos, at its weight
+    {
+        let singles: Vec<&Tok> = rpt.iter().filter(|t| ["XX", "XYs", "XYo"].contains(&t.shape)).collect();
+        let outs = par_map(singles.len(), |i| {
+            let t = singles[i];
+            let mut bad = vec![];
+            let mut n = 0u64;
+            let find_cp = |cb: &Combo| cpt.iter().find(|x| x.combos[0] == *cb).unwrap();
+            for (k, cb) in t.combos.iter().enumerate() {
+                let c1 = find_cp(cb);
+                let c2 = find_cp(&t.combos[(k + 1) % t.combos.len()]);
+                for w in ["", ":0.5"] {
+                    let mut ls: Vec<Vec<(&Tok, &str)>> = vec![vec![(c1, w), (t, w)], vec![(c1, w), (c2, ":0.25"), (t, w)], vec![(c2, ":0.25"), (c1, w), (t, w)]];
+                    let mut all_but: Vec<(&Tok, &str)> = t.combos.iter().filter(|x| *x != cb).map(|x| (find_cp(x), w)).collect();
+                    all_but.push((t, w));
+                    ls.push(all_but);
+                    for l in ls {
+                        n += 1;
+                        let text = list_text(&l);
+                        let exp = expected_list(&l);
+                        if let Some(b) = check_range_text(&text, &exp) {
+                            if bad.len() < 2 {
+                                bad.push((text, b));
+                            }
+                        }
+                    }
+                }
+            }
+            (bad, n)
+        });
+        let mut n_p = 0u64;
+        for (bad, k) in outs {
+            n_p += k;
+            for (text, b) in bad {
+                rep.violation(Violation { key: format!("range={}", text), sub: "partly-present-rank-pair".into(), case: json!({"text": text}), expected: json!("every combo of the later rank-pair token, at its weight"), observed: b });
+            }
+        }
+        rep.sub("partly-present-rank-pair", "for each of the 169 rank pairs and each of its combos c: the single combo (alone, with a neighbour at another weight on either side, and all combos but c) followed by the rank pair's own token at the SAME weight (1 and 0.5)", n_p, n_p, true, json!({}));
+    }
 
     // (d) triples over a sub-alphabet on ranks A,K,Q
     let mut tri: Vec<&Tok> = rpt.iter().filter(|t| t.text.chars().all(|c| !RANK_CHARS.contains(&c) || ['A', 'K', 'Q'].contains(&c))).collect();
@@ -342,6 +369,50 @@ pub fn run(tier: &str) -> i32 {
             }
         }
         rep.sub("long-weights", "54 weight literals of 5 to 70 fraction digits (values around u32::MAX/10^10, repeated digits, tiny values, 1.000..., and for eight f32 values the exact midpoint to the next float, a hair above it and a hair below it) behind one token of each shape", n, n, false, json!({"literals": lits.len()}));
+    }
+
+    // (d2b) every weight literal of up to three fraction digits (all digit pairs and triples a text-level rewrite
+    // could trip over), behind a token that follows another one in a list
+    {
+        let mut lits: Vec<String> = vec!["0".into(), "1".into(), "1.0".into(), "1.00".into(), "1.000".into()];
+        for d in 1..=3usize {
+            for v in 0..10u32.pow(d as u32) {
+                lits.push(format!("0.{:0width$}", v, width = d));
+            }
+        }
+        let find = |s: &str| all.iter().find(|t| t.text == s).copied().unwrap();
+        let heads = [find("AKs"), find("QQ+"), find("AsKs")];
+        let first = find("JJ");
+        let outs = par_map(lits.len(), |i| {
+            let mut bad = vec![];
+            for h in &heads {
+                let text = format!("{}:0.5,{}:{}", first.text, h.text, lits[i]);
+                let mut exp = Contents::new();
+                for cb in &first.combos {
+                    exp.insert(*cb, 0.5f32.to_bits());
+                }
+                let w = lits[i].parse::<f32>().unwrap().to_bits();
+                for cb in &h.combos {
+                    exp.insert(*cb, w);
+                }
+                if let Some(b) = check_range_text(&text, &exp) {
+                    bad.push((text, b));
+                }
+            }
+            bad
+        });
+        let mut nb = 0;
+        for bad in outs {
+            for (text, b) in bad {
+                nb += 1;
+                if nb <= 6 {
+                    rep.violation(Violation { key: format!("range={}", text), sub: "short-weights".into(), case: json!({"text": text}), expected: json!("the f32 nearest the literal on the second token's combos, 0.5 on the first's"), observed: b });
+                } else {
+                    rep.violations_total += 1;
+                }
+            }
+        }
+        rep.sub("short-weights", "ALL weight literals 0, 1, 1.0, 1.00, 1.000 and 0.d, 0.dd, 0.ddd (1,115) behind AKs, QQ+ and AsKs as the second token of a list", (lits.len() * 3) as u64, lits.len() as u64, true, json!({"literals": lits.len()}));
     }
 
     // (d3) a list whose first tokens already cover all 1326 combos, followed by overriding tokens
